@@ -498,6 +498,9 @@ class RadialProfile(ProfileBase):
         # that a first read after ``normalize`` is consistent with a
         # value that was cached (and rescaled) before it
         data_profile = self._data_profile[1]
+        if self.unit is not None:
+            # same units as ``profile`` (independent of any normalization)
+            data_profile = data_profile << self.unit
         if self.normalization_value != 1.0:
             data_profile = data_profile / self.normalization_value
         return data_profile
